@@ -350,6 +350,8 @@ class Folder(FileSystemItemABC):
                 file.scan()
                 if file.visible_health_status == FileSystemItemHealthStatus.CORRUPT:
                     self.visible_health_status = FileSystemItemHealthStatus.CORRUPT
+            # the folder was scanned in this step: observations that wait for a scan refresh now
+            self._scanned_this_step = True
             return True
 
         if self.scan_countdown <= 0:
